@@ -152,7 +152,7 @@ def predict (c : Case) : Pred :=
         ({ returns := [renderOpt r.err], stored := r.stored.getD 0,
            outcome := if call.outcome then (match r.outcome with | some (some n) => s!"r:{n}" | _ => "nil") else "" }, w)
       | "getall" =>
-        let (r, w) := queryGetAll s (if c.dests == "none" then 0 else 1) (c.dests == "valid") w1
+        let (r, w) := queryGetAll s (if c.dests == "none" then 0 else 1) (c.dests.startsWith "valid") w1
         ({ returns := [renderOpt r.err], appended := r.appended }, w)
       | _ =>
         let (it, w) := iterOpen s w1
